@@ -127,7 +127,8 @@ func famConns(w *World) {
 			referenced[a.Name][b.HostPort] = true
 		case 8:
 			a.Ch.Peers().Remove(b.HostPort)
-			delete(referenced[a.Name], b.HostPort)
+			// stays marked: the property speaks of peers that were unreferenced when their last
+			// connection went away; a later Remove does not by itself evict the peer
 		case 9: // let idle sweeps run
 			sleep(time.Duration(10+scn(60)) * w.Grid)
 		case 10: // concurrent burst of connects in both directions
@@ -288,7 +289,7 @@ func (w *World) checkBookkeeping(alias map[string]*Node, referenced map[string]m
 	}()
 	for _, n := range w.Nodes {
 		w.eval("C16.bookkeeping")
-		st := n.Ch.IntrospectState(&tchannel.IntrospectionOptions{})
+		st := n.Ch.IntrospectState(&tchannel.IntrospectionOptions{IncludeEmptyPeers: true})
 		// ground truth: live links of this node
 		type ck struct{ local, remote string }
 		wantIn, wantOut := map[string][]ck{}, map[string][]ck{}
